@@ -99,18 +99,29 @@ structure Img where
 def Img.at (img : Img) (x y : Nat) : C16 :=
   if x < img.w ∧ y < img.h then img.px.getD (y * img.w + x) ⟨0, 0, 0, 0⟩ else ⟨0, 0, 0, 0⟩
 
-/-- The cell list built by `Resize` from an (unscaled) image: `width = Max.X`,
-    `height = ⌈Max.Y / 2⌉`, cell `i` covers pixels `(x, 2y)` and `(x, 2y+1)` with
-    `y = i / width`, `x = i - y*width`. -/
-def blockCells (cell : C16 → C16 → BCell) (img : Img) : List (Nat × Nat × BCell) :=
+/-- The lower pixel of the cell whose upper pixel is `(x, y)`: `img.At(x, y+1)` as it comes (outside the image = zero
+    colour), or — `FullBlockImage.Resize` since the F220 repair — the upper pixel again when the image has no row
+    `y+1` (last cell row of an odd pixel height). -/
+def lowerPx (mode : Bottom) (img : Img) (x y : Nat) : C16 :=
+  match mode with
+  | .read => img.at x (y + 1)
+  | .topIfMissing => if y + 1 < img.h then img.at x (y + 1) else img.at x y
+
+/-- The cell list built by `Resize` from an image: `width = Max.X`, `height = ⌈Max.Y / 2⌉`, cell `i` covers
+    pixels `(x, 2y)` and `(x, 2y+1)` with `y = i / width`, `x = i - y*width`. -/
+def blockCellsWith (mode : Bottom) (cell : C16 → C16 → BCell) (img : Img) : List (Nat × Nat × BCell) :=
   let width := img.w
   let height := blockHeight img.h
   (List.range (height * width)).map fun i =>
     let y := i / width
     let x := i - y * width
-    (x, y, cell (img.at x (2 * y)) (img.at x (2 * y + 1)))
+    (x, y, cell (img.at x (2 * y)) (lowerPx mode img x (2 * y)))
+
+/-- Both pixels read as they come (`HalfBlockImage.Resize`). -/
+def blockCells (cell : C16 → C16 → BCell) (img : Img) : List (Nat × Nat × BCell) := blockCellsWith .read cell img
 
 def halfCells : Img → List (Nat × Nat × BCell) := blockCells halfCell
-def fullCells : Img → List (Nat × Nat × BCell) := blockCells fullCell
+/-- `FullBlockImage.Resize`: how the lower pixel is read is regenerated from the source (`Gen.fullBlockBottom`). -/
+def fullCells : Img → List (Nat × Nat × BCell) := blockCellsWith fullBlockBottom fullCell
 
 end VaxisModel.Model.Blocks
